@@ -161,7 +161,7 @@ def tcp_batch(s, flows):
 
 def gen_mirror(runner, tier, seed):
     r = rng_for(seed, "C03")
-    n = 60 if tier == "quick" else 1500
+    n = 100 if tier == "quick" else 1500
     for cfg in (cfg_plain(), Config(SMAC, None, None, KEYS[2], "none", 0)):
         s = runner.session(cfg, "mirror random tuples key=%x" % cfg.key[0])
         frames, flows = [], []
@@ -215,7 +215,7 @@ def gen_wellformed(runner, tier, seed):
     # application replies of every protocol on both versions over UDP; DNS names of every length
     s = runner.session(cfg_plain(), "wf app udp")
     fr = []
-    for k in range(3 if tier == "quick" else 40):
+    for k in range(10 if tier == "quick" else 40):
         for pl in app_requests(r):
             fr.append(p4.udp(r.randrange(65536), r.randrange(65536), pl))
             fr.append(p6.udp(r.randrange(65536), r.randrange(65536), pl))
@@ -225,13 +225,13 @@ def gen_wellformed(runner, tier, seed):
     s.send(fr)
     s = runner.session(cfg_plain(), "wf app tcp")
     flows = []
-    for k in range(2 if tier == "quick" else 30):
+    for k in range(6 if tier == "quick" else 30):
         for pl in app_requests(r, tcpmode=True):
             flows.append((r.choice([p4, p6]), 1024 + len(flows), r.randrange(65536), r.randrange(1 << 32), [pl]))
     tcp_batch(s, flows)
     # SYN / FIN replies
     fr = []
-    for k in range(50 if tier == "quick" else 2000):
+    for k in range(300 if tier == "quick" else 2000):
         p = r.choice([p4, p6])
         fr.append(p.tcp(r.randrange(65536), r.randrange(65536), r.randrange(1 << 32), r.randrange(1 << 32), r.choice([F_SYN, F_FIN | F_ACK, F_SYN | F_PSH, F_SYN | F_ECE])))
     s.send(fr)
@@ -265,7 +265,7 @@ def _reply_l4(rep):
 def gen_zero_checksum(runner, tier, r):
     s = runner.session(cfg_plain(), "wf adaptive zero checksum")
     p4, p6 = peer4(), peer6()
-    for rounds in range(2 if tier == "quick" else 12):
+    for rounds in range(4 if tier == "quick" else 12):
         sport, dport = r.randrange(1, 65536), r.randrange(1, 65535)
         for p in (p4, p6):
             # STUN over UDP: last transaction-id word
@@ -535,7 +535,7 @@ def noise(r):
 
 def gen_tcp_gate(runner, tier, seed):
     r = rng_for(seed, "C07")
-    rounds = 3 if tier == "quick" else 60
+    rounds = 6 if tier == "quick" else 60
     for rd in range(rounds):
         s = runner.session(cfg_plain(key=KEYS[rd % 3]), "tcp gate round %d" % rd)
         peers = [peer4(), peer6(), Peer(CMAC, SMAC, rand_ip4(r), rand_ip4(r)), Peer(CMAC, SMAC, rand_ip6(r), rand_ip6(r))]
@@ -589,7 +589,7 @@ def gen_interference(runner, tier, seed):
     accepted data segments of its own flow (the restricted history, run first, on an empty
     table); paired events are compared by the specification (Stack!PairJudge)."""
     r = rng_for(seed, "C08")
-    rounds = 4 if tier == "quick" else 80
+    rounds = 8 if tier == "quick" else 80
     for rd in range(rounds):
         s = runner.session(cfg_plain(key=KEYS[rd % 3]), "interference round %d" % rd)
         nf = r.choice([2, 3, 5, 8, 16])
@@ -862,11 +862,11 @@ def gen_dns(runner, tier, seed):
             total += l + 1
         return tuple(labels) or (b"a",)
     ids = [0, 1, 0xffff] + [r.randrange(65536) for _ in range(5)]
-    flagwords = [0, 0x0100] + [1 << b for b in range(16)] + [r.randrange(65536) for _ in range(20 if tier == "quick" else 4000)]
+    flagwords = [0, 0x0100] + [1 << b for b in range(16)] + [r.randrange(65536) for _ in range(150 if tier == "quick" else 4000)]
     for fw in flagwords:
         pl.append(dns_query(r.choice(ids), fw, [name(r)]))
     for qn in range(0, 5):
-        for _ in range(4 if tier == "quick" else 60):
+        for _ in range(15 if tier == "quick" else 60):
             pl.append(dns_query(r.choice(ids), r.choice([0, 0x0100]), [name(r) for _ in range(qn)]))
     # the same name asked several times, names that are prefixes / suffixes of each other
     for _ in range(4 if tier == "quick" else 40):
@@ -896,7 +896,7 @@ def gen_dns(runner, tier, seed):
     # destination addresses
     s2 = runner.session(cfg_plain(), "dns destinations")
     fr = []
-    for _ in range(20 if tier == "quick" else 500):
+    for _ in range(80 if tier == "quick" else 500):
         p = Peer(CMAC, SMAC, rand_ip4(r), rand_ip4(r))
         fr.append(p.udp(r.randrange(65536), r.choice([53, 5353, r.randrange(65536)]), dns_query(r.randrange(65536), 0x0100, [name(r)])))
     s2.send(fr)
@@ -905,7 +905,7 @@ def gen_dns(runner, tier, seed):
 def gen_stun(runner, tier, seed):
     r = rng_for(seed, "C15")
     pl = []
-    n = 30 if tier == "quick" else 1500
+    n = 120 if tier == "quick" else 1500
     for k in range(n):
         magic = r.random() < 0.5
         tx = (STUN_MAGIC + rb(r, 12)) if magic else rb(r, 16)
@@ -919,7 +919,7 @@ def gen_stun(runner, tier, seed):
             attrs += stun_attr(0x8022, rb(r, 256))            # length >= 0x100: outside the listed C10 class
         pl.append(stun(0x0001, tx, attrs))
     # exact signature forms
-    for _ in range(10 if tier == "quick" else 200):
+    for _ in range(30 if tier == "quick" else 200):
         pl.append(stun(0x0001, rb(r, 16)))
         pl.append(stun(0x0001, rb(r, 16), stun_change_request(r.random() < 0.5, r.random() < 0.5)))
         pl.append(stun(0x0001, STUN_MAGIC + rb(r, 12)))
@@ -928,7 +928,7 @@ def gen_stun(runner, tier, seed):
         pl.append(stun(t, rb(r, 16)))
         pl.append(stun(t, STUN_MAGIC + rb(r, 12)))
         pl.append(stun(t, STUN_MAGIC + rb(r, 12), stun_attr(0x0001, b"\0\1" + struct.pack(">H", 4242) + bytes([1, 2, 3, 4]))))
-    for k in range(10 if tier == "quick" else 300):
+    for k in range(30 if tier == "quick" else 300):
         tx = STUN_MAGIC + rb(r, 12)
         good = stun_attr(0x8022, rb(r, 256))
         bad = r.choice([struct.pack(">HH", r.choice([1, 3, 0x8022]), r.choice([1, 2, 3, 5, 300, 65535])) + rb(r, r.randrange(0, 6)),
@@ -955,9 +955,9 @@ def gen_rpc(runner, tier, seed):
         # top byte outside the listed C10 shadow classes most of the time
         return (r.choice([0x12, 0x80, 0xfe, 0x01, 0x99, 0x7e]) << 24) | r.randrange(1 << 24)
     calls = []
-    progs = list(range(99840, 100096)) if tier != "quick" else [99840, 99999, 100000, 100001, 100003, 100005, 100095]
+    progs = list(range(99840, 100096)) if tier != "quick" else [99840, 99841, 99999, 100000, 100001, 100003, 100005, 100021, 100024, 100094, 100095]
     versions = [0, 1, 2, 3, 4, 5, 104316, 0xffffffff]
-    procs = list(range(0, 256)) if tier != "quick" else [0, 1, 2, 3, 4, 5, 6, 100, 255]
+    procs = list(range(0, 256)) if tier != "quick" else [0, 1, 2, 3, 4, 5, 6, 7, 8, 16, 100, 128, 255]
     for prog in progs:
         for v in versions:
             for pr in (procs if prog == 100000 else [0, 3, r.choice(procs)]):
@@ -992,7 +992,7 @@ def gen_smb(runner, tier, seed):
     pl = []
     dialect_pool = [b"PC NETWORK PROGRAM 1.0", b"LANMAN1.0", b"Windows for Workgroups 3.1a", b"LM1.2X002", b"LANMAN2.1", b"NT LM 0.12",
                     b"SMB 2.002", b"SMB 2.???", b"FOO", b"x"]
-    n = 12 if tier == "quick" else 400
+    n = 40 if tier == "quick" else 400
     for k in range(n):
         ds = r.sample(dialect_pool, r.randrange(1, 9))
         if r.random() < 0.2:
@@ -1024,7 +1024,7 @@ def gen_ssh_ghost(runner, tier, seed):
     r = rng_for(seed, "C18")
     pl = []
     alpha = [c for c in range(33, 127)] + [13, 13, 0x80, 0xff, 0, 9]
-    n = 60 if tier == "quick" else 3000
+    n = 300 if tier == "quick" else 3000
     for k in range(n):
         ver = r.choice([b"2.0", b"1.99", b"2.0", b"2.0.1", b"2.00", b"1.5", b"2.", b"2.0a", b"", b"2..0"])
         sw = rb(r, r.randrange(0, 12), alpha)
@@ -1034,7 +1034,7 @@ def gen_ssh_ghost(runner, tier, seed):
         pl.append(ssh_ident(ver, sw, cm, term, tail))
     pl += [b"SSH-2.0-x\r\n", b"SSH-1.99-x\r\n", b"SSH-2.0-x", b"SSH-2.0-\r\n", b"SSH-2.0\r\n", b"SSH-2.0- \r\n", b"SSH-2.0-a b c\r\n", b"SSH-2.0-a\rb\r\n",
            b"SSH-2.0-a\r\r\n", b"SSH-1.5-x\r\n", b"ssh-2.0-x\r\n", b"SSH-2.0-x\n", b"SSH-2.0-" + b"y" * 300 + b"\r\n", b"SSH-2.0-x\r", b"SSH-2.0-x c\r"]
-    for t in range(0, 40 if tier == "quick" else 301):
+    for t in range(0, 100 if tier == "quick" else 301):
         pl.append(ghost(rb(r, t)))
     pl += [b"Gh0st", b"Gh0s", b"gh0st", b"Gh0st\0\0\0\0"]
     send_payloads(runner, "ssh and gh0st", pl, r, tier)
@@ -1099,7 +1099,7 @@ def gen_replies(runner, tier, seed):
                 fr.append(p.tcp(r.randrange(65536), 80, r.randrange(1 << 32), r.randrange(1 << 32), fl, r.choice([b"", b"x"])))
         # application replies, generated
         app = []
-        for k in range(6 if tier == "quick" else 80):
+        for k in range(15 if tier == "quick" else 80):
             app.append(dns_query(r.randrange(65536), 0x8180 | r.choice([0, 0x0400, 0x0003]), [(rb(r, 5, list(range(97, 123))), b"com")]))
             app.append(dns_query(r.randrange(65536), 0x8180, [(b"a",)], counts=(1, 1, 0, 0), tail=b"\xc0\x0c\0\1\0\1\0\0\0\x3c\0\4\1\2\3\4"))
             for t in (0x0011, 0x0101, 0x0111):
@@ -1165,7 +1165,7 @@ def gen_replies(runner, tier, seed):
 def gen_ports(runner, tier, seed):
     r = rng_for(seed, "C19")
     payloads = []
-    for _ in range(2 if tier == "quick" else 12):
+    for _ in range(4 if tier == "quick" else 12):
         payloads += app_requests(r) + app_requests(r, tcpmode=True)
     payloads += [b"GET / HTTP/1.1\r\n", b"SSH-2.0-x\n", b"nothing to see", dns_query(qtypes=[(16, 1)]), smb2_negotiate([0x1234]),
                  rpc_call(vers=9), rpc_call(proc=0), rpc_call(prog=100003), rpc_call(vers=3, proc=4), rpc_call(vers=2, proc=4),
@@ -1173,7 +1173,7 @@ def gen_ports(runner, tier, seed):
     ports = [0, 1, 22, 53, 80, 111, 445, 3478, 65535]
     s = runner.session(cfg_plain(), "ports and ip version, udp")
     fr, grp = [], []
-    k = 4 if tier == "quick" else 12
+    k = 6 if tier == "quick" else 12
     for gi, q in enumerate(payloads):
         ctxs = [(r.choice(ports + [r.randrange(65536)]), r.choice(ports + [r.randrange(65536)]), v6) for v6 in (False, True) for _ in range(k // 2)]
         for (sp, dp, v6) in ctxs:
